@@ -449,6 +449,20 @@ def Lower.reserveAll (frames ntrees nhuge : Nat) : Prog Unit :=
   fillBitfields g false 0 lastB
   fillBitfields g true lastB (nhuge - lastB)
 
+/-- what `recover` does to one table entry, given the number of zero bits of its bitfield -/
+inductive RecoverAct where
+  | nothing
+  | clearBitfield          -- `bitfield.fill(false)`
+  | setCounter (v : Nat)   -- `a_entry.store(HugeEntry::new_with(zeros))`
+deriving Repr, DecidableEq
+
+/-- decision of `Lower::recover` for one entry -/
+def recoverAct (hf entry zeros : Nat) : RecoverAct :=
+  if Huge.isHuge entry then
+    (if zeros ≠ hf then .clearBitfield else .nothing)
+  else
+    (if Huge.free entry ≠ zeros then .setCounter (Huge.newWith zeros) else .nothing)
+
 /-- `Lower::recover` -/
 def Lower.recover (ntrees nhuge : Nat) : Prog Unit :=
   let rec entries (cnt : Nat) (t j : Nat) : Prog Unit :=
@@ -458,12 +472,11 @@ def Lower.recover (ntrees nhuge : Nat) : Prog Unit :=
       let h := t * g.treeHuge + j
       if h ≥ nhuge then pure () else  -- `break`
       let entry ← loadK .huge (hugeIdx g t j)
-      if Huge.isHuge entry then
-        let p ← Bitfield.countZeros g h
-        if p ≠ g.hugeFrames then Bitfield.fill g h false
-      else
-        let zeros ← Bitfield.countZeros g h
-        if Huge.free entry ≠ zeros then storeK .huge (hugeIdx g t j) (Huge.newWith zeros)
+      let zeros ← Bitfield.countZeros g h
+      match recoverAct g.hugeFrames entry zeros with
+      | .nothing => pure ()
+      | .clearBitfield => Bitfield.fill g h false
+      | .setCounter v => storeK .huge (hugeIdx g t j) v
       entries cnt t (j + 1)
   let rec tables (cnt t : Nat) : Prog Unit :=
     match cnt with
